@@ -77,6 +77,17 @@ def explore(tier, seed):
                     for transport in ("file", "stdin"):
                         jobs.append(("special", label, table[label], text, (None, transport), n)); n += 1
 
+        # byte strings that are valid but not canonical in a stateful encoding (text grows while bytes shrink), in place
+        for raw in (b"\x1b(Ja ;b;\x1b(B\n", b"a;\x1b(Jb;\x1b(B", b"a  ; //\x1b$B$\"\x1b(B \x1b$B$$\x1b(B\n"):
+            for transport in ("file", "stdin"):
+                jobs.append(("raw", "ISO-2022-JP", table["ISO-2022-JP"], raw, (None, transport), n)); n += 1
+        # a byte order mark that arrives in pieces on standard input (one byte, two bytes, then the rest)
+        for text in ("BEGIN  a ; END .", "x  :=  '\u00e9' ;"):
+            for bom in BOMS:
+                for first in (1, 2):
+                    for label in ("UTF-8", "windows-1252", "Shift_JIS"):
+                        jobs.append(("split", label, table[label], text, (bom, first), n)); n += 1
+
         def run_job(job):
             kind, label, entry, payload, extra, k = job
             res = []
@@ -100,6 +111,41 @@ def explore(tier, seed):
                 if rc2 == 0 or out2:
                     res.append(("malformed-input-accepted", f"stdin: exit {rc2}, stdout {out2[:60]!r}", case))
                 os.unlink(f)
+                return (True, res)
+            if kind == "raw":
+                data, (_, transport) = payload, extra
+                text = data.decode(entry["codec"])
+                formatted = F(text)
+                want = enc(formatted, entry)
+                case = {"oracle": "c17", "kind": "raw", "encoding": label, "transport": transport, "input_hex": data.hex(), "no_confirm": True}
+                if transport == "file":
+                    open(f, "wb").write(data)
+                    rc, out, err = cli.run(args_enc + [f], hermetic_cfg=sb.empty_cfg)
+                    got = open(f, "rb").read()
+                    os.unlink(f)
+                else:
+                    rc, got, err = cli.run(args_enc, stdin=data, hermetic_cfg=sb.empty_cfg)
+                if rc != 0:
+                    res.append(("valid-input-rejected", f"exit {rc}: {err[:200]!r}", case))
+                elif got != want:
+                    res.append(("bytes-differ-from-bom-plus-encode-format-decode", f"{transport}: got {got[:80]!r}, want {want[:80]!r}", case))
+                return (True, res)
+            if kind == "split":
+                import subprocess, time
+                text, (bom, first) = payload, extra
+                bom_bytes, codec = BOMS[bom]
+                data = bom_bytes + text.encode(codec)
+                want = bom_bytes + F(text).encode(codec)
+                p = subprocess.Popen([cli.CLI, "--config-file", sb.empty_cfg] + args_enc, stdin=subprocess.PIPE, stdout=subprocess.PIPE, stderr=subprocess.PIPE)
+                p.stdin.write(data[:first]); p.stdin.flush()
+                time.sleep(0.15)
+                p.stdin.write(data[first:]); p.stdin.close()
+                got = p.stdout.read(); err = p.stderr.read(); rc = p.wait()
+                case = {"oracle": "c17", "kind": "split", "encoding": label, "bom": bom, "first_fragment": first, "text": text, "no_confirm": True}
+                if rc != 0:
+                    res.append(("valid-input-rejected", f"BOM delivered in pieces ({first} byte(s) first): exit {rc}: {err[:160]!r}", case))
+                elif got != want:
+                    res.append(("bytes-differ-from-bom-plus-encode-format-decode", f"BOM delivered in pieces: got {got[:60]!r}, want {want[:60]!r}", case))
                 return (True, res)
             if kind == "batch":
                 text = payload
@@ -184,7 +230,7 @@ def replay(case):
     data = bytes.fromhex(case["input_hex"])
     args_enc = ["-Cencoding=" + label] if label not in ("UTF-16LE", "UTF-16BE") else []
     with cli.Sandbox("c17-replay") as sb:
-        if case["kind"] == "batch":
+        if case["kind"] in ("batch", "raw", "split"):
             print("REPLAY: batch cases are re-run by the check itself")
             return 2
         if case["kind"] == "malformed":
